@@ -358,10 +358,19 @@ func Valid(data []byte) bool {
 	if err != nil {
 		return false
 	}
-	if !decoder.More() {
-		return true
+	// only white space may follow the value (More() also stops at a stray ']' or '}')
+	offset := decoder.InputOffset()
+	if offset > int64(len(data)) {
+		offset = int64(len(data))
 	}
-	return decoder.InputOffset() >= int64(len(data))
+	for _, c := range data[offset:] {
+		switch c {
+		case ' ', '\t', '\n', '\r':
+		default:
+			return false
+		}
+	}
+	return true
 }
 
 func init() {
